@@ -81,6 +81,28 @@ type raceReport struct {
 	Text     string
 	InModule bool   // some frame belongs to the module under test
 	Key      string // dedup key: outermost entry-point pair
+	// Owners: per racing access, whose code performs it - the innermost frame that is not the Go runtime or standard
+	// library decides: "module" (the code under test, also when it reaches the memory through a standard-library
+	// call), "harness", "dependency" (a third-party package) or "runtime"
+	Owners []string
+	Inner  string // the innermost frames of the two accesses (second-level dedup key)
+}
+
+func frameOwner(fn string) string {
+	switch {
+	case strings.HasPrefix(fn, "github.com/ja7ad/otp"):
+		return "module"
+	case strings.HasPrefix(fn, "verifh/") || strings.HasPrefix(fn, "main."):
+		return "harness"
+	}
+	first := fn
+	if i := strings.Index(fn, "/"); i >= 0 {
+		first = fn[:i]
+		if strings.Contains(first, ".") {
+			return "dependency"
+		}
+	}
+	return ""
 }
 
 // runChildPart runs one part in a child built as binEnv (e.g. VERIF_RACE_BIN) and merges its report.
@@ -151,15 +173,26 @@ func splitRaceReports(log string) []raceReport {
 		rr := raceReport{Text: "WARNING: DATA RACE" + p}
 		rr.InModule = strings.Contains(p, "github.com/ja7ad/otp")
 		// dedup key: the outermost (last) frame of each of the two stacks, line numbers stripped
-		var outer []string
+		var outer, inner []string
 		for _, blk := range strings.Split(p, "\n\n") {
 			fs := frameRe.FindAllStringSubmatch(blk, -1)
 			if len(fs) > 0 && (strings.Contains(blk, "by goroutine") || strings.Contains(blk, "by main goroutine")) && !strings.Contains(blk, "created at") {
 				outer = append(outer, fs[len(fs)-1][1])
+				inner = append(inner, fs[0][1])
+				owner := "runtime"
+				for _, f := range fs {
+					if o := frameOwner(f[1]); o != "" {
+						owner = o
+						break
+					}
+				}
+				rr.Owners = append(rr.Owners, owner)
 			}
 		}
 		sort.Strings(outer)
 		rr.Key = strings.Join(outer, " <-> ")
+		sort.Strings(inner)
+		rr.Inner = strings.Join(inner, " <-> ")
 		out = append(out, rr)
 	}
 	return out
@@ -172,15 +205,37 @@ func judgeRaceReports(c *Ctx, res *childResult, kind string, cas any) {
 	seen := map[string]bool{}
 	for _, rr := range res.RaceReports {
 		c.R.Count("race_reports", 1)
-		if seen[rr.Key] {
+		// first by the pair of outermost entry points, then by the pair of accessing functions: two different races
+		// below the same entry points (every request of a server enters through the same worker function) stay apart
+		if seen[rr.Key+"|"+rr.Inner] {
 			continue
 		}
-		seen[rr.Key] = true
+		seen[rr.Key+"|"+rr.Inner] = true
 		c.R.Count("race_reports_distinct", 1)
-		if rr.InModule {
-			c.R.Violate(c.R.Prop+"|race-detector|data-race|"+rr.Key, "the Go race detector reports a data race involving the library", kind, cas, "no data race", rr.Text)
-		} else {
-			c.R.Inconclusive("race report without a frame of the module under test (harness bug?): " + rr.Key)
+		owns := func(who string) bool {
+			for _, o := range rr.Owners {
+				if o == who {
+					return true
+				}
+			}
+			return false
+		}
+		switch {
+		case owns("module") || (len(rr.Owners) == 0 && rr.InModule):
+			c.R.Violate(c.R.Prop+"|race-detector|data-race|"+rr.Key+"|"+rr.Inner, "the Go race detector reports a data race involving the library", kind, cas, "no data race", rr.Text)
+		case owns("harness") || !rr.InModule:
+			c.R.Inconclusive("race report without an access by the module under test (harness bug?): " + rr.Key)
+		default:
+			// both racing accesses are made by third-party code that the service merely calls (no access of the module's
+			// own, not even through the standard library): the properties speak about what the service answers, and
+			// the behavioural oracles judge that; the report is recorded, it is not a verdict on the module
+			c.R.Count("race_reports_inside_dependencies", 1)
+			if len(rr.Text) > 1500 {
+				c.R.Extra["race_inside_dependency:"+rr.Key] = rr.Text[:1500]
+			} else {
+				c.R.Extra["race_inside_dependency:"+rr.Key] = rr.Text
+			}
+			fmt.Println("NOTE race reported inside a dependency, reached through the service (recorded, not a verdict): " + rr.Key)
 		}
 	}
 }
@@ -191,7 +246,15 @@ func raceLogs(c *Ctx, base string) {
 	res := &childResult{}
 	for _, m := range matches {
 		tb, _ := os.ReadFile(m)
-		res.RaceReports = append(res.RaceReports, splitRaceReports(string(tb))...)
+		for _, rr := range splitRaceReports(string(tb)) {
+			// a server binary has no harness code in it: its package main is the module's
+			for i, o := range rr.Owners {
+				if o == "harness" {
+					rr.Owners[i] = "module"
+				}
+			}
+			res.RaceReports = append(res.RaceReports, rr)
+		}
 	}
 	c.R.Count("race_logs_read", len(matches))
 	judgeRaceReports(c, res, "none", nil)
